@@ -76,6 +76,12 @@ func solveScript(dir, name, script string, timeoutS int) solveResult {
 	if r.status != "unknown" {
 		return r
 	}
+	if strings.HasPrefix(strings.TrimSpace(r.out), "(error") {
+		// the generated script is ill-formed (engine or spec defect): say so
+		// instead of reporting an honest-looking "unknown"
+		r.status = "script-error"
+		return r
+	}
 	total := r.secs
 	ctx, cancel := context.WithCancel(context.Background())
 	defer cancel()
